@@ -64,7 +64,7 @@ CORE_TEXT = {
  'C08': 'copies are appended at the pipe tail, events are appended to the batch in arrival order and handed over in that order; per-run monitor of per-recipient send order incl. pills',
  'C09': 'registry steps: present key -> EEXIST, absent -> added, bad priority -> EINVAL without token, deregister present removes exactly that entry, absent -> error without effect, tasks cannot be deregistered',
  'C13': 'the flush decision as a function of priority, batch size and accumulated count (high: always, low: never, normal: count >= size, size 0: at once), batch timer hands over everything accumulated',
- 'C14': 'thread confinement: a thread holding another context or none fails M_MOD_ASSERT with EPERM; whenever that assertion fails EVERY module operation / pub-sub call is refused with a negative code and no effect; a foreign call leaves the owner thread context untouched; a message cannot be addressed to a module of another context',
+ 'C14': 'thread confinement: a thread holding another context or none fails M_MOD_ASSERT with EPERM; whenever that assertion fails EVERY module operation / pub-sub call is refused with a negative code and no effect; a foreign call leaves the owner thread context untouched; a message cannot be addressed to a module of another context. Independence: coq/Globals.v (every library symbol in a writable section with its writers, REGENERATED from the tree by nm + a source scan on every run) satisfies the policy of coq/GlobalsModel.v, hence no two accesses of different context threads to one global race (happens-before model by phases: ELF constructor, pthread_once, documented configuration step). Further engines of this check: foreign-thread calls are really made by another pthread in the differential driver (also while the owner is inside the module callback); 2..16 contexts loop concurrently under ThreadSanitizer and each context observation is compared with the same program run alone',
  'C15': 'live name without allow-replace -> EEXIST, deny-pub / deny-sub calls refused, deny-ctx hides the context during the callbacks of the module, reserved topic prefix refused, persistent module not deregistrable while looping',
  'C16': 'unstash(n) hands over exactly firstn n of the stash in one invocation and returns that number, stash appends, high priority events refused, both refused unless RUNNING',
  'C17': 'become pushes, unbecome pops the top or fails on the empty stack, every invocation runs hd(stack) fixed before the body starts, no empty invocation, both refused unless RUNNING',
